@@ -29,11 +29,11 @@ type Config struct {
 }
 
 var Configs = map[string]Config{
-	"default":                  {Name: "default"},
-	"noasm":                    {Name: "noasm", Tags: "noasm"},
-	"inplacetranspose":         {Name: "inplacetranspose", Tags: "inplacetranspose"},
-	"noasm,inplacetranspose":   {Name: "noasm,inplacetranspose", Tags: "noasm,inplacetranspose"},
-	"386":                      {Name: "386", GOARCH: "386"},
+	"default":                {Name: "default"},
+	"noasm":                  {Name: "noasm", Tags: "noasm"},
+	"inplacetranspose":       {Name: "inplacetranspose", Tags: "inplacetranspose"},
+	"noasm,inplacetranspose": {Name: "noasm,inplacetranspose", Tags: "noasm,inplacetranspose"},
+	"386":                    {Name: "386", GOARCH: "386"},
 }
 
 type FuncInfo struct {
